@@ -341,7 +341,7 @@ def meek_definitions(rep, prog):
         rets = S.select("return", qname=f.qname)
         alg = SetAlg(atoms_)
 
-        def code(w, rets=rets, alg=alg):
+        def code(w, rets=rets):
             # the function returns True on the first return whose path holds and whose value is true
             for r in rets:
                 if all(alg.truth(cnd, w) == pol for cnd, pol in r.path):
@@ -351,7 +351,24 @@ def meek_definitions(rep, prog):
             used = {x for r in rets for t_ in [r.value] + [cnd for cnd, _ in r.path] for x in walk(t_)
                     if isinstance(x, tuple) and x and x[0] == "call" and x[1].startswith(U)}
             if not used <= set(atoms_):
-                raise Inconclusive("uses other set atoms than %s" % [fmt(a) for a in atoms_])
+                # other node relations of i / j in the same graph: decided in the larger algebra. Regions are inhabited by third nodes k; for one
+                # node, pa / ch / neighbors are pairwise disjoint and contained in adj - no other constraint ties k's relation to i with its relation to j
+                extra = sorted(used - set(atoms_))
+                rel = {U + "pa", U + "ch", U + "neighbors", U + "adj"}
+                if len(atoms_) + len(extra) > 4 or not all(x[1] in rel and dict(x[3]).get("A") == A_ and dict(x[3]).get("i") in (I_, J_) and len(x[3]) == 2 for x in extra):
+                    raise Inconclusive("uses other set atoms than %s" % [fmt(a) for a in atoms_])
+                all_atoms = list(atoms_) + extra
+                kinds = [(a[1].split(".")[-1], dict(a[3])["i"]) for a in all_atoms]
+
+                def feasible(r, kinds=kinds):
+                    for node in (I_, J_):
+                        ins = [k for (k, n_), m in zip(kinds, r) if n_ == node and m]
+                        if sum(1 for k in ins if k != "adj") > 1:
+                            return False
+                        if any(k != "adj" for k in ins) and ("adj", node) in kinds and "adj" not in ins:
+                            return False
+                    return True
+                alg = SetAlg(all_atoms, max_atoms=4, feasible=feasible)
             ok, wit = alg.equal(code, lambda w: spec(alg, w))
             rep.check("RULES." + name, ok, fwhere(f), "%s(i, j, A) <=> %s, in all %d worlds of the two sets" % (name, text, 2 ** len(alg.regions)),
                       "%s deviates from its definition (%s): %s" % (name, text, wit))
